@@ -188,7 +188,84 @@ def replay_const(p):
     return False, "helper agrees with general injection"
 
 
-REPLAYS = {'const': replay_const}
+def job_units(T, Fc, asc, kind, smear, dsign):
+    """the helper called with unit-carrying arguments (MHz, kHz / s, kHz) returns what it returns for the same values in
+    SI numbers (that those equal the general injection is the subject of the other jobs)"""
+    from props.frame_common import SQ
+    recs = []
+    tag = f"C13:units:{(T, Fc, asc, kind, smear, dsign)}"
+    g = inject.GEOMS['g1']
+    df, dt, fch1 = g['df'], g['dt'], g['fch1']
+    unit = df / dt
+    fM, dk, lvl, wk = (Sym(z3.Real(n)) for n in ('f_start_MHz', 'drift_kHz_s', 'level', 'width_kHz'))
+    f0, d, w = fM * 1000000, dk * 1000, wk * 1000
+    fmin = fch1 if asc else fch1 - (Fc - 1) * df
+    pre = [w.t >= RV(0.05 * df), w.t <= RV(6 * df), f0.t >= RV(fmin - df), f0.t <= RV(fmin + Fc * df), d.t >= RV(-3 * unit), d.t <= RV(3 * unit)]
+    pre.append(d.t < 0 if dsign < 0 else (d.t > 0 if dsign > 0 else d.t == 0))
+
+    def run():
+        a = make_frame(T, Fc, asc, Sym(RV(df)), Sym(RV(dt)), Sym(RV(fch1)))
+        b = make_frame(T, Fc, asc, Sym(RV(df)), Sym(RV(dt)), Sym(RV(fch1)))
+        ha = a.add_constant_signal(SQ(fM, 'MHz'), SQ(dk, 'kHz / s'), lvl, SQ(wk, 'kHz'), f_profile_type=kind, doppler_smearing=smear)
+        hb = b.add_constant_signal(f0, d, lvl, w, f_profile_type=kind, doppler_smearing=smear)
+        return ha, hb
+    with frame_patches(units=True):
+        leaves = core.explore(run, pre, cap=3000)
+    conds, ncex = [], 0
+    for li, leaf in enumerate(leaves):
+        conds.append(leaf.cond())
+        name = f"{tag}:leaf{li}"
+        base = pre + leaf.pc + leaf.side
+        if leaf.kind == 'exc':
+            r, m = core.check(base, timeout_ms=30000)
+            recs.append(q(name + ':noexc', r, detail=repr(leaf.value)))
+            if r == 'sat' and ncex < 3:
+                ncex += 1
+                recs.append(cex('C13:units:raise', f'helper with unit-carrying arguments raises {leaf.value!r}', dict(fn='units', kind=kind, smear=smear, asc=asc, drift=core.model_float(m, d), width=core.model_float(m, w), f_start=core.model_float(m, f0)), name=name + ':noexc'))
+            continue
+        ha, hb = leaf.value
+        dis = []
+        for x, y in zip(ha.flat, hb.flat):
+            dd = z3.simplify(lift(x) - lift(y), som=True)
+            if not (z3.is_rational_value(dd) and dd.numerator_as_long() == 0):
+                dis.append(dd != 0)
+        if not dis:
+            recs.append(q(name, 'unsat', trivial=True))
+            continue
+        r, m = core.check(base + [z3.Or(*dis)], timeout_ms=60000)
+        recs.append(q(name, r))
+        if r == 'sat' and ncex < 3:
+            ncex += 1
+            recs.append(cex('C13:units', f'helper with unit-carrying arguments differs from the helper with the same values in Hz, Hz/s ({kind}, smearing={smear})',
+                            dict(fn='units', kind=kind, smear=smear, asc=asc, drift=core.model_float(m, d), width=core.model_float(m, w), f_start=core.model_float(m, f0)), name=name))
+    r, _ = core.check(pre + [z3.Not(z3.Or(*conds))], timeout_ms=60000)
+    recs.append(q(f"{tag}:split-complete", r, leaves=len(leaves)))
+    return recs
+
+
+def replay_units(p):
+    import astropy.units as u
+    import setigen as stg
+    g = inject.GEOMS['g1']
+    msgs = []
+    cands = [(p['f_start'], p['drift'], p['width'])] + [(g['fch1'] - 3 * g['df'] * (1 if not p['asc'] else -1), s_ * 2.5 * g['df'] / g['dt'], w_ * g['df']) for s_ in (1, -1, 0) for w_ in (0.5, 3.0)]
+    for (f0, d, w) in cands:
+        outs = []
+        for args in ((f0 * 1e-6 * u.MHz, d * 1e-3 * u.kHz / u.s, 1.5, w * 1e-3 * u.kHz), (f0, d, 1.5, w), (f0 * u.Hz, d * 1e3 * u.mHz / u.s, 1.5, w * u.Hz)):
+            fr = stg.Frame(fchans=12, tchans=4, df=g['df'], dt=g['dt'], fch1=g['fch1'], ascending=p['asc'], seed=0)
+            try:
+                outs.append(fr.add_constant_signal(*args, f_profile_type=p['kind'], doppler_smearing=p['smear']))
+            except Exception as e:
+                return True, f"helper with arguments {args} raised {type(e).__name__}: {e}"
+        for k in (0, 2):
+            if not np.allclose(outs[k], outs[1], rtol=1e-9, atol=1e-12):
+                ij = np.unravel_index(np.argmax(np.abs(outs[k] - outs[1])), outs[1].shape)
+                msgs.append(f"f_start={f0}, drift={d}, width={w} ({p['kind']}, smearing={p['smear']}): pixel {ij} is {outs[k][ij]!r} with unit-carrying arguments and {outs[1][ij]!r} with plain SI numbers")
+                break
+    return bool(msgs), '; '.join(msgs[:2]) or 'unit-carrying arguments agree with plain numbers'
+
+
+REPLAYS = {'const': replay_const, 'units': replay_units}
 
 
 def main():
@@ -216,6 +293,10 @@ def main():
                     for smear in (False, True):
                         for dsign in (-1, 0, 1):
                             jobs.append(('job', (T, Fc, asc, kind, smear, geom, ck.tier, dsign)))
+    for kind in (('box', 'gaussian') if not ck.thorough else PROFILES):
+        for smear in (False, True):
+            for dsign in (-1, 0, 1):
+                jobs.append(('job_units', (2, 5, smear, kind, smear, dsign)))
     ck.run_jobs('props.C13', jobs, timeout_s=3000 if ck.thorough else 900)
     ck.finish()
 
